@@ -427,7 +427,8 @@ def run(rep, facts, tier):
                 fx.fns[caller].j['span'] if caller in fx.fns else None, nontrivial=False)
 
 
-def check_runtime_code_patches(rep, fx, V, tracked):
+def runtime_patch_sites(fx, V, tracked):
+    """(view of the step function, [(bb, at, how)] sites that overwrite an instruction, blocks that put a saved instruction back)"""
     STEP = 'state::State::fetch_and_run'
     f = V(STEP)
     codew = set()        # functions that overwrite an element of State.code
@@ -443,13 +444,19 @@ def check_runtime_code_patches(rep, fx, V, tracked):
         c = callee_of(t)
         if c in codew and c != STEP:
             sites.append((bb, t.get('at'), short(c)))
-    rep.floor('C11.R3 run-time writes of an instruction (Resolve stub)', len(sites), 1)
     restores = set()      # blocks that write back an instruction read from code before the patch
     for w in awrite.field_writes(fx, f, tracked):
         if w['field'][0] == 'code' and w.get('elem') and w['how'].startswith('assign'):
             e = f.expr_of_rvalue(w['stmt']['rv'], 0, frozenset()) if w.get('stmt') else None
             if e is not None and any(isinstance(x, tuple) and x[0] == 'call' and x[1] == 'core::mem::replace' for x in expr_walk(e)):
                 restores.add(w['bb'])
+    return f, sites, restores
+
+
+def check_runtime_code_patches(rep, fx, V, tracked):
+    STEP = 'state::State::fetch_and_run'
+    f, sites, restores = runtime_patch_sites(fx, V, tracked)
+    rep.floor('C11.R3 run-time writes of an instruction (Resolve stub)', len(sites), 1)
     rets = set(f.return_blocks())
     bad = []
     n = 0
@@ -463,11 +470,13 @@ def check_runtime_code_patches(rep, fx, V, tracked):
                       and 'ctx.mode' in expr_str(e, -10) and 'ContextMode::MetaEval' in repr(e)]
         if meta_sides and not meta_sides[-1]:
             continue            # runs only when the mode is not MetaEval
-        if meta_sides and meta_sides[-1]:
-            # in the MetaEval branch: the stub has to be put back on every way out
-            from ..pathq import exists_path_avoiding
-            if restores and exists_path_avoiding(f, bb, lambda b: b in rets, restores) is None:
-                continue
+        if any(isinstance(e, tuple) and e[0] == 'call' and e[1].endswith('::is_empty') and '.input' in expr_str(e, -14) and side for (_, e, side) in gs):
+            continue            # runs only when no source is being read - and a meta block is evaluated while its source is
+        # anywhere else - the MetaEval branch, or a branch that more than one test leads to (`mode == MetaEval || a source is
+        # still being read`) - the stub has to be put back on every way out
+        from ..pathq import exists_path_avoiding
+        if restores and exists_path_avoiding(f, bb, lambda b: b in rets, restores) is None:
+            continue
         bad.append((how, at))
     # ... and what the stub binds to is never a build-time (immediate) word: those work on the source being read and are run by
     # the builder only.  Every self-patching site is reached only after the entry's `immediate` flag was found false
@@ -479,13 +488,28 @@ def check_runtime_code_patches(rep, fx, V, tracked):
         if br and 'immediate' in expr_str(br[0], -14):
             imm_true.append(br[1])
     after_true = set()
+    xfn = fx.adts.get('cell::Xfn') or {}
+    native_ix = [i for i, v in enumerate(xfn.get('variants', [])) if v['name'] == 'Native']
     for tb in imm_true:
+        # the refusal may be narrowed to the built-in words (`immediate: true, xf: Xfn::Native(_)`): a user-defined immediate word
+        # is compiled code like any other.  Then what must not bind is what lies behind `immediate` AND `Native`
+        b, hops = tb, 0
+        while f.blocks[b]['term']['k'] == 'goto' and hops < 4:
+            b, hops = f.blocks[b]['term']['target'], hops + 1
+        t = f.blocks[b]['term']
+        if t['k'] == 'switch' and native_ix:
+            e = f.expr_of_operand(t['discr'])
+            if isinstance(e, tuple) and e[0] == 'discr' and e[2] == 'cell::Xfn':
+                listed = dict((v, tg) for v, tg in t['targets'])
+                nt = listed.get(native_ix[0], t['otherwise'])
+                after_true |= _ba(f, nt) | {nt}
+                continue
         after_true |= _ba(f, tb) | {tb}
     for bb, at, how in sites:
         if not imm_true or bb in after_true:
             unguarded.append(how)
     rep.add('C11.R4', 'C11.R4:late-binding-refuses-build-time-words', not unguarded,
-            'the Resolve stub tests the immediate flag of the entry and fails on it before binding' if not unguarded else
+            'the Resolve stub tests the immediate flag of the entry and fails on a built-in build-time word before binding' if not unguarded else
             'the step function binds a late word without looking at the immediate flag of the entry (%s): `late = : t = ; enum E 1 t A endenum` '
             'runs the enum builder\'s `=` as an instruction of the program - unbounded native recursion' % ', '.join(sorted(set(unguarded))),
             STEP, f.j['span'])
